@@ -95,6 +95,17 @@ def body(ctx, case):
     pin = float(np.sum(np.abs(u) ** 2)) * case["d1"] ** 2
     pout = float(np.sum(np.abs(out) ** 2)) * dout ** 2
     ctx.close(pout, pin, TOL, "%s power conservation (m=%r, z=%r)" % (case["prop"], case["m"], case["z"]), scale=max(pin, 1e-300))
+    # history with a near-coincidence: a preceding call whose scalar arguments differ by a few parts in 1e4 (same field,
+    # same grid) must leave no trace on this call
+    for fld, fac in (("wvl", 1 + 3e-4), ("z", 1 - 2e-4), ("d1", 1 + 1e-4)):
+        near = dict(case)
+        near[fld] = case[fld] * fac
+        if isinstance(case[fld], int):
+            continue
+        with np.errstate(all="ignore"):
+            run_prop(near, u)
+            again, _ = run_prop(case, u)
+        ctx.equal(np.asarray(again), out, "%s: result depends on a preceding call with a slightly different %s" % (case["prop"], fld))
     # homogeneity over many decades of amplitude (a field of 1e-12 is as good a field as one of 1)
     for sfac in (1e-12, 1e-9, 1e7):
         with np.errstate(all="ignore"):
